@@ -74,6 +74,15 @@ theorem boot_oom_is_safe (m : List Region) (b b' : Boot) (h : bootAlloc m b = (b
     b'.allocCount = b.allocCount ∧ b'.kStart = b.kStart ∧ b'.kEnd = b.kEnd :=
   bootAlloc_none h
 
+/-- **boot_oom_is_final** — "when no such frame remains it reports out-of-memory": once an
+allocation fails, every later allocation fails too and nothing changes any more, so exhaustion is
+a stable state and no frame is ever produced after it. -/
+theorem boot_oom_is_final (m : List Region) (ksA keA : Nat) (hs : SortedMap m) (hp : KernelPlaced m ksA keA)
+    (b b' : Boot) (hks : b.kStart = (bootInit ksA keA).kStart) (hke : b.kEnd = (bootInit ksA keA).kEnd)
+    (hb : BootOk b) (h : bootAlloc m b = (b', none)) : bootAlloc m b' = (b', none) :=
+  bootAlloc_oom_final (by rw [hks, hke]; exact geo_of_placed hs hp) (chain_of_sorted hs)
+    (by rw [hks, hke]; exact bootInit_k_le hp.nonempty) hb h
+
 /-- **replay_exact** — resetting the allocator (count 0, cursor 0) after `n` successful
 allocations and allocating `n` times again returns the same frames in the same order. -/
 theorem replay_exact (m : List Region) (ksA keA : Nat) (hs : SortedMap m) (hp : KernelPlaced m ksA keA)
